@@ -1,0 +1,26 @@
+//go:build verif
+
+// Package verifhook provides named hook points for external runtime-verification
+// harnesses. With the "verif" build tag, At calls the installed callback, which
+// may block until the harness releases it.
+package verifhook
+
+import "sync/atomic"
+
+var callback atomic.Pointer[func(string)]
+
+// Set installs (or, with nil, removes) the callback invoked at every hook point.
+func Set(f func(string)) {
+	if f == nil {
+		callback.Store(nil)
+		return
+	}
+	callback.Store(&f)
+}
+
+// At marks a hook point.
+func At(name string) {
+	if f := callback.Load(); f != nil {
+		(*f)(name)
+	}
+}
